@@ -393,12 +393,16 @@ def run_case(i, rng, rec, tier, state):
         s = cs.ConvexPolyhedron(P.copy()) if rng.random() < 0.6 else None
         if s is None:
             h = geom.hull_facets(P)
-            s = cs.Polyhedron(P.copy(), [list(f) for f in h.facets], faces_are_convex=True)
+            iform, fx = gen.index_form(rng, h.facets, len(P))
+            rec.cls("face-index-type:" + iform)
+            s = cs.Polyhedron(P.copy(), fx, faces_are_convex=True)
         kind = c["kind"]
     else:
         c = gen.mesh_case(rng, kinds=("voxel", "extrusion", "perturbed"))
         mag = float(10 ** rng.uniform(-6, 6)) if rng.random() < 0.6 else 1.0
-        s = cs.Polyhedron(c["V"] * mag, [list(f) for f in c["faces"]], faces_are_convex=True)
+        iform, fx = gen.index_form(rng, c["faces"], len(c["V"]))
+        rec.cls("face-index-type:" + iform)
+        s = cs.Polyhedron(c["V"] * mag, fx, faces_are_convex=True)
         kind = c["kind"]
     if (i // 2) % 4 == 1:
         # one shape in four is exported after a public history (resizes, moves, diagonalize_inertia, to_hoomd): the files have
